@@ -104,7 +104,7 @@ PROPS = {
  "C18": P("TestC18", "exploration",
           "controlled schedules: rapid generates 2.0.5 (PIP-10) and 2.0.2 chains and 2-10 pause points = SQL call ordinals of the sync goroutine (two thirds around BEGIN / the sync-height writes / COMMIT, "
           "before or after the call), each with 1-3 API calls (get-sync-status, get-pegnet-issuance, get-pegnet-balances, get-rich-list over all assets, get-global-rich-list, get-pegnet-rates, "
-          "get-transaction-status, get-miner-distribution, get-transactions by height / address, get-graded, get-bank for the block being applied and the last committed one) served by the REAL JSON-RPC server on loopback "
+          "get-transaction-status, get-miner-distribution, get-transactions by height / address, get-transaction by txid, get-graded, get-bank for the block being applied and the last committed one, properties) served by the REAL JSON-RPC server on loopback "
           "while the sync goroutine is held inside the SQL hook. One call in five is dropped by its client in the middle of the handler (the handler is held at its k-th SQL call until the server has seen the "
           "disconnect), and two schedules in three add a rich-list request dropped right when a block starts. Oracles: (1) final ledger dump == dump of the run "
           "without API calls; (2) every successful response equals what the reference per-height state implies for the LAST COMMITTED height (syncheight, issuance, balances, rich-list amounts, latest rates, "
